@@ -314,7 +314,7 @@ def _post_shapes(cx, spec):
     import random
     from . import rng as rng_mod
     p = cx.p
-    if not any(p.get(k, 0) > 0 for k in ("p_empty_routing", "p_routing_shorthand", "p_keyword_update_field", "p_struct_fields", "p_mixin_mixed_body", "p_stdlib_file_name", "p_mistyped_max_results", "p_streamed_list", "p_nested_lro_types")):
+    if not any(p.get(k, 0) > 0 for k in ("p_empty_routing", "p_routing_shorthand", "p_keyword_update_field", "p_struct_fields", "p_mixin_mixed_body", "p_stdlib_file_name", "p_mistyped_max_results", "p_streamed_list", "p_nested_lro_types", "p_mixin_in_service_config")):
         return
     prng = random.Random(int(rng_mod.digest(spec)[:16], 16))
     methods = [(fs, s, m) for fs, s, m in all_methods(spec)]
@@ -402,6 +402,27 @@ def _post_shapes(cx, spec):
                 m["lro"]["response_type"] = w(job + ".Result")
             if c > 0.4:
                 m["lro"]["metadata_type"] = w(job + ".Metadata")
+    if prng.random() < p.get("p_mixin_in_service_config", 0) and spec.get("service_config") is not None:
+        # the gRPC service config names RPCs of the google.longrunning.Operations MIXIN (which the service YAML switches on)
+        api = "google.longrunning.Operations"
+        y = spec.setdefault("service_yaml", {"type": "google.api.Service", "config_version": 3,
+                                             "name": next(s["host"] for fs, s, m in methods)})
+        if all(a["name"] != api for a in y.setdefault("apis", [])):
+            y["apis"].append({"name": api})
+        rules = y.setdefault("http", {}).setdefault("rules", [])
+        names = prng.sample(["GetOperation", "ListOperations", "DeleteOperation", "CancelOperation"], prng.randint(1, 3))
+        for n in names:
+            if all(r["selector"] != f"{api}.{n}" for r in rules):
+                rules.append(dict(MIXIN_RULES[api][n], selector=f"{api}.{n}"))
+        already = {(x.get("service"), x.get("method")) for e in spec["service_config"].get("methodConfig", []) for x in e.get("name", [])}
+        fresh = [n for n in names if (api, n) not in already]
+        if fresh:
+            e = {"name": [{"service": api, "method": n} for n in fresh], "timeout": prng.choice(["5s", "10s", "20s", "7.5s", "30s"])}
+            if prng.random() < 0.85:
+                e["retryPolicy"] = {"maxAttempts": prng.randint(2, 5), "initialBackoff": prng.choice(["0.1s", "0.25s", "1s"]),
+                                    "maxBackoff": prng.choice(["1s", "4s", "10s"]), "backoffMultiplier": prng.choice([1.3, 2, 1.5]),
+                                    "retryableStatusCodes": prng.sample(ALL_CODES, prng.choice([1, 2, 2, 3]))}
+            spec["service_config"].setdefault("methodConfig", []).append(e)
     if prng.random() < p.get("p_mixin_mixed_body", 0):
         # a mixin http rule whose bindings do not agree on `body` (one carries "*", another none: its fields travel in the query)
         rules = [r for r in ((spec.get("service_yaml") or {}).get("http") or {}).get("rules", [])
